@@ -111,6 +111,18 @@ func (ex *Exec) doCall(fr *Frame, instr ssa.CallInstruction, c *ssa.CallCommon, 
 	return ex.havocCall(fr, instr, c, pc, st, resT)
 }
 
+// closedKeyOf names the ghost array that records whether a channel is closed:
+// per struct field when the channel operand is loaded from a field.
+func closedKeyOf(ch ssa.Value) string {
+	if u, ok := ch.(*ssa.UnOp); ok && u.Op == token.MUL {
+		if fa, ok := u.X.(*ssa.FieldAddr); ok {
+			st := fa.X.Type().Underlying().(*types.Pointer).Elem()
+			return fmt.Sprintf("G|closed|%s|%d", typeKey(st), fa.Field)
+		}
+	}
+	return "G|closed"
+}
+
 func (ex *Exec) havocCallOwn(fr *Frame, instr ssa.CallInstruction, callee *ssa.Function, c *ssa.CallCommon, pc Term, st State, resT types.Type) (State, Term, bool) {
 	// the callback's captured cells are reached only through the callback, which the caller models explicitly
 	ex.callbackModelled = true
@@ -208,6 +220,26 @@ func (ex *Exec) havocKeys(st State, keys map[string]bool, why string) State {
 	n := make(map[string]Term, len(st.m)+len(keys))
 	for a, b := range st.m {
 		n[a] = b
+	}
+	if keys["G|closed*"] {
+		// a channel of unknown origin is closed somewhere in the callee: every per-field record may change
+		keys2 := map[string]bool{}
+		for k := range keys {
+			if k != "G|closed*" {
+				keys2[k] = true
+			}
+		}
+		for k := range ex.keySort {
+			if strings.HasPrefix(k, "G|closed|") {
+				keys2[k] = true
+			}
+		}
+		for k := range st.m {
+			if strings.HasPrefix(k, "G|closed|") {
+				keys2[k] = true
+			}
+		}
+		keys = keys2
 	}
 	for _, k := range sortedKeys(keys) {
 		so, ok := ex.keySort[k]
@@ -490,9 +522,25 @@ func (ex *Exec) builtin(fr *Frame, instr ssa.CallInstruction, bi *ssa.Builtin, c
 	case "delete":
 		return ex.mapDelete(st, c.Args[0].Type(), args[0], args[1]), Term{}, false
 	case "close":
-		h := ex.get(st, "G|closed", arraySort(SRef, SBool))
+		// closed-ness is tracked per struct field that holds the channel (and in a generic key
+		// for channels that are not loaded from a field)
+		key := closedKeyOf(c.Args[0])
+		h := ex.get(st, key, arraySort(SRef, SBool))
 		ex.safetyObl(fr, "close", instr.Pos(), pc, not(sel(h, args[0], SBool)), "close of closed channel")
-		return st.with("G|closed", ex.vc.def("closed", sto(h, args[0], tTrue))), Term{}, false
+		st = st.with(key, ex.vc.def("closed", sto(h, args[0], tTrue)))
+		if key == "G|closed" {
+			// unknown origin: it may be the channel held in any field
+			keys := map[string]bool{}
+			for k := range ex.keySort {
+				if strings.HasPrefix(k, "G|closed|") {
+					keys[k] = true
+				}
+			}
+			st = ex.havocKeys(st, keys, "close of untracked channel")
+		} else {
+			ex.assumed["a channel held in a struct field is closed only through that field (closed-ness is tracked per field)"] = true
+		}
+		return st, Term{}, false
 	case "print", "println":
 		return st, Term{}, false
 	case "ssa:deferstack":
